@@ -65,8 +65,9 @@ DropNoticed == LET d == RefDump IN
    /\ (Len(d.main) > 0 => WellFormed([d EXCEPT !.main = Tail(@)], Req, split, splitGlyphs, present) # "ok")
    /\ WellFormed([d EXCEPT !.malformed = TRUE], Req, split, splitGlyphs, present) # "ok"
 GlyphFaultsNoticed == LET d == RefDump IN Len(d.glyphEntries) > 1 =>
-   /\ WellFormed([d EXCEPT !.glyphEntries[1].holds = d.glyphEntries[2].holds], Req, split, splitGlyphs, present) = "dump:per-glyph-include-does-not-hold-exactly-its-glyph"
-   /\ WellFormed([d EXCEPT !.glyphEntries[1].holds = <<>>], Req, split, splitGlyphs, present) = "dump:per-glyph-include-does-not-hold-exactly-its-glyph"
+   /\ WellFormed([d EXCEPT !.glyphEntries[1].holds = d.glyphEntries[2].holds], Req, split, splitGlyphs, present) = "dump:a-glyph-is-held-by-no-per-glyph-file"
+   /\ WellFormed([d EXCEPT !.glyphEntries[1].holds = <<>>], Req, split, splitGlyphs, present) = "dump:per-glyph-include-does-not-hold-exactly-one-glyph"
+   /\ WellFormed([d EXCEPT !.glyphEntries[1].holds = <<1, 2>>], Req, split, splitGlyphs, present) = "dump:per-glyph-include-does-not-hold-exactly-one-glyph"
    /\ WellFormed([d EXCEPT !.glyphEntries[2].file = [i \in 1..Len(d.glyphEntries[1].file) |-> IF d.glyphEntries[1].file[i] \in 97..122 THEN d.glyphEntries[1].file[i] - 32 ELSE d.glyphEntries[1].file[i]]],
                  Req, split, splitGlyphs, present) = "dump:per-glyph-file-names-collide-ignoring-case"
    /\ WellFormed([d EXCEPT !.glyphEntries = Tail(@)], Req, split, splitGlyphs, present) = "dump:glyf-file-does-not-list-every-glyph-once"
